@@ -111,6 +111,7 @@ func (t *vfTransport) WriteMany(data ...[]byte) error {
 	if err != nil {
 		return err
 	}
+	t.w.Gates.Pass("write:" + t.name)
 	if g != nil {
 		select {
 		case <-g:
@@ -418,6 +419,9 @@ type vfWorld struct {
 	events []vfEvent
 	conns  map[string]*vfConn // by client id
 
+	// Gates are named blocking points; transports pass "write:<conn name>" before each write.
+	Gates *vfGates
+
 	// ChanOpts supplies SubscribeOptions for client-side subscribes handled by the default OnSubscribe handler.
 	ChanOpts func(c *vfConn, e SubscribeEvent) (SubscribeReply, error)
 	// OnSubscribe, when set, replaces the default subscribe handler completely (may call cb asynchronously).
@@ -456,7 +460,7 @@ func vfNewWorld(cfg Config, pre func(w *vfWorld)) (*vfWorld, error) {
 	if err != nil {
 		return nil, err
 	}
-	w := &vfWorld{node: n, start: time.Now(), conns: map[string]*vfConn{}}
+	w := &vfWorld{node: n, start: time.Now(), conns: map[string]*vfConn{}, Gates: vfNewGates()}
 	w.broker = &vfBrokerProxy{w: w, inner: n.broker}
 	n.SetBroker(w.broker)
 	n.OnConnecting(func(ctx context.Context, e ConnectEvent) (ConnectReply, error) {
@@ -509,6 +513,7 @@ func vfNewWorld(cfg Config, pre func(w *vfWorld)) (*vfWorld, error) {
 
 // Close shuts the node down; call before leaving the bubble (after releasing every gate).
 func (w *vfWorld) Close() {
+	w.Gates.ReleaseAll()
 	_ = w.node.Shutdown(context.Background())
 	// Virtual time stops once the bubble's main goroutine returns, so let deferred work (dissolver jobs sleep 1 s
 	// before a broker unsubscribe, close goroutines, writer timers) run to completion here.
@@ -550,7 +555,7 @@ func (w *vfWorld) NewConn(cc vfConnCfg) *vfConn {
 	if !cc.KeepPing {
 		pp = PingPongConfig{PingInterval: -1, PongTimeout: -1}
 	}
-	t := &vfTransport{w: w, name: "vf-" + cc.Name, proto: cc.Proto, uni: cc.Uni, disabledPush: cc.DisabledPush,
+	t := &vfTransport{w: w, name: cc.Name, proto: cc.Proto, uni: cc.Uni, disabledPush: cc.DisabledPush,
 		pingPong: pp, closeCh: make(chan struct{})}
 	ctx, cancel := context.WithCancel(context.Background())
 	client, closeF, err := NewClient(ctx, w.node, t)
@@ -681,4 +686,95 @@ func vfRenderFrames(fs []vfFrame) string {
 		parts = append(parts, vfRenderReply(f.Reply))
 	}
 	return strings.Join(parts, " | ")
+}
+
+// ---------------------------------------------------------------------------------------------------
+// named gates (a goroutine blocked in Pass is durably blocked for synctest)
+
+type vfGates struct {
+	mu      sync.Mutex
+	armed   map[string]int
+	waiting map[string][]chan struct{}
+	passed  map[string]int
+}
+
+func vfNewGates() *vfGates {
+	return &vfGates{armed: map[string]int{}, waiting: map[string][]chan struct{}{}, passed: map[string]int{}}
+}
+
+// Arm makes the next n Pass(name) calls block until released.
+func (g *vfGates) Arm(name string, n int) {
+	g.mu.Lock()
+	g.armed[name] += n
+	g.mu.Unlock()
+}
+
+func (g *vfGates) Disarm(name string) {
+	g.mu.Lock()
+	g.armed[name] = 0
+	g.mu.Unlock()
+}
+
+// Pass blocks if the gate is armed.
+func (g *vfGates) Pass(name string) {
+	g.mu.Lock()
+	g.passed[name]++
+	if g.armed[name] <= 0 {
+		g.mu.Unlock()
+		return
+	}
+	g.armed[name]--
+	ch := make(chan struct{})
+	g.waiting[name] = append(g.waiting[name], ch)
+	g.mu.Unlock()
+	<-ch
+}
+
+// Waiting reports how many goroutines are parked at the gate.
+func (g *vfGates) Waiting(name string) int {
+	g.mu.Lock()
+	defer g.mu.Unlock()
+	return len(g.waiting[name])
+}
+
+// Release lets one parked goroutine continue; false if none is parked.
+func (g *vfGates) Release(name string) bool {
+	g.mu.Lock()
+	defer g.mu.Unlock()
+	w := g.waiting[name]
+	if len(w) == 0 {
+		return false
+	}
+	close(w[0])
+	g.waiting[name] = w[1:]
+	return true
+}
+
+// ReleaseAll disarms every gate and releases every parked goroutine.
+func (g *vfGates) ReleaseAll() {
+	g.mu.Lock()
+	defer g.mu.Unlock()
+	for k := range g.armed {
+		g.armed[k] = 0
+	}
+	for k, w := range g.waiting {
+		for _, ch := range w {
+			close(ch)
+		}
+		g.waiting[k] = nil
+	}
+}
+
+// AnyWaiting returns the names of gates with parked goroutines (sorted).
+func (g *vfGates) AnyWaiting() []string {
+	g.mu.Lock()
+	defer g.mu.Unlock()
+	var out []string
+	for k, w := range g.waiting {
+		if len(w) > 0 {
+			out = append(out, k)
+		}
+	}
+	sort.Strings(out)
+	return out
 }
